@@ -335,6 +335,6 @@ def explore_csessions(ctx, cases):
 
 def csession_cases(rng, tier):
     cases = copy.deepcopy(CORPUS) + family_reparametrize() + family_add_environment() + family_launch()
-    n = 160 if tier == 'quick' else 3000
+    n = 120 if tier == "quick" else 2000
     cases += [gen_csession(rng) for _ in range(n)]
     return cases
